@@ -40,6 +40,14 @@ U4Ins == [t \in U4Txs |-> CASE t = "a" -> {G(1)} [] t = "b" -> {G(2)} [] t = "c"
 U4Deps == [t \in U4Txs |-> CASE t = "b" -> {<<"a", 0>>} [] t = "d" -> {G(3)} [] OTHER -> {}]
 U4Fee == [t \in U4Txs |-> CASE t = "c" -> 3 [] t = "s" -> 2 [] OTHER -> 1]
 U4Size == [t \in U4Txs |-> 1]
+\* ---- U5: the RBF fee rule at its boundaries. a <- b <- c pooled (fees 2, 1, 3; sizes 1, increment 1); four
+\*          replacements of a (all spend g1): r3 pays just above the DIRECT conflict (2 + 1), r6 one short of
+\*          everything it replaces plus the increment (6 + 1 - 1), r7 exactly, r8 one more
+U5Txs == {"a", "b", "c", "r3", "r6", "r7", "r8"}
+U5Ins == [t \in U5Txs |-> CASE t = "b" -> {<<"a", 0>>} [] t = "c" -> {<<"b", 0>>} [] OTHER -> {G(1)}]
+U5Deps == [t \in U5Txs |-> {}]
+U5Fee == [t \in U5Txs |-> CASE t = "a" -> 2 [] t = "b" -> 1 [] t = "c" -> 3 [] t = "r3" -> 3 [] t = "r6" -> 6 [] t = "r7" -> 7 [] t = "r8" -> 8]
+U5Size == [t \in U5Txs |-> 1]
 NoHDeps == [t \in Txs |-> {}]
 UnitCycles == [t \in Txs |-> IF Size[t] = 2 THEN 1 ELSE 2]
 MGenesis == {G(1), G(2), G(3), G(4)}
@@ -59,6 +67,10 @@ MConf_U4short == [maxAnc |-> 3, maxSize |-> 4, rbf |-> TRUE, rbfRate |-> 1000, c
 MConf_U1norbf == [maxAnc |-> 3, maxSize |-> 4, rbf |-> FALSE, rbfRate |-> 1000, close |-> 2, far |-> 3, mine |-> TRUE]
 MConf_U2coded == [maxAnc |-> 3, maxSize |-> 4, rbf |-> TRUE, rbfRate |-> 1000, close |-> 2, far |-> 3, mine |-> TRUE]
 MConf_U1coded == [maxAnc |-> 3, maxSize |-> 4, rbf |-> TRUE, rbfRate |-> 1000, close |-> 2, far |-> 3, mine |-> TRUE]
+MConf_U5 == [maxAnc |-> 3, maxSize |-> 10, rbf |-> TRUE, rbfRate |-> 1000, close |-> 2, far |-> 3, mine |-> TRUE]
+MConf_U5sim == [maxAnc |-> 3, maxSize |-> 10, rbf |-> TRUE, rbfRate |-> 1000, close |-> 2, far |-> 3, mine |-> TRUE]
+MConf_U5short == [maxAnc |-> 3, maxSize |-> 10, rbf |-> TRUE, rbfRate |-> 1000, close |-> 2, far |-> 3, mine |-> TRUE]
+MConf_U5four == [maxAnc |-> 3, maxSize |-> 10, rbf |-> TRUE, rbfRate |-> 1000, close |-> 2, far |-> 3, mine |-> TRUE]
 -----------------------------------------------------------------------------
 Staged(P, ch) == [t \in P |-> Stage(t, ch, conf)]
 Log(op) == IF KeepHist THEN Append(hist, op) ELSE hist
